@@ -38,8 +38,15 @@ type vfTCInst struct {
 	t0       time.Time
 }
 
-func vfTCNew(x *vfExec, st timecache.Strategy) *vfTCInst {
-	return &vfTCInst{x: x, tc: timecache.NewTimeCacheWithStrategy(st, 10*time.Second), strategy: st, ttl: 10 * time.Second, ref: map[string]time.Time{}, t0: time.Now()}
+// vfTCNew builds the cache and lets phaseMs of virtual time pass first, so that bounded histories also reach the
+// neighbourhood of a sweeper tick (the sweeper ticks every minute from creation).
+func vfTCNew(x *vfExec, st timecache.Strategy, phaseMs int) *vfTCInst {
+	in := &vfTCInst{x: x, tc: timecache.NewTimeCacheWithStrategy(st, 10*time.Second), strategy: st, ttl: 10 * time.Second, ref: map[string]time.Time{}, t0: time.Now()}
+	if phaseMs > 0 {
+		time.Sleep(time.Duration(phaseMs) * time.Millisecond)
+		synctest.Wait()
+	}
+	return in
 }
 
 func (in *vfTCInst) Enabled() []string {
@@ -339,10 +346,12 @@ func init() {
 				depth = 8
 			}
 			for _, st := range []timecache.Strategy{timecache.Strategy_FirstSeen, timecache.Strategy_LastSeen} {
-				if _, ok := r.nextCase(); ok {
-					st := st
-					vfExplore(r, &vfExploreCfg{Scenario: map[string]any{"part": "cache", "strategy": int(st)}, Name: fmt.Sprintf("cache-strategy%d", st), MaxDepth: depth, Bubble: true,
-						New: func(x *vfExec) vfInstance { return vfTCNew(x, st) }})
+				for _, phase := range []int{0, 49000, 59500} {
+					if _, ok := r.nextCase(); ok {
+						st, phase := st, phase
+						vfExplore(r, &vfExploreCfg{Scenario: map[string]any{"part": "cache", "strategy": int(st), "phase": phase}, Name: fmt.Sprintf("cache-strategy%d-phase%d", st, phase), MaxDepth: depth, Bubble: true,
+							New: func(x *vfExec) vfInstance { return vfTCNew(x, st, phase) }})
+					}
 				}
 			}
 			vfRunGWScenarios(r, vfC02Scenarios(r.thorough), vfC02Mk)
@@ -353,6 +362,7 @@ func init() {
 				Scenario struct {
 					Part     string `json:"part"`
 					Strategy int    `json:"strategy"`
+					Phase    int    `json:"phase"`
 				} `json:"scenario"`
 			}
 			json.Unmarshal(raw, &c)
@@ -360,7 +370,9 @@ func init() {
 			case c.Variant == "sched":
 				vfC02SchedReplay(r, raw)
 			case c.Scenario.Part == "cache":
-				vfReplayCase(r, &vfExploreCfg{Name: "cache", Bubble: true, New: func(x *vfExec) vfInstance { return vfTCNew(x, timecache.Strategy(c.Scenario.Strategy)) }}, raw)
+				vfReplayCase(r, &vfExploreCfg{Name: "cache", Bubble: true, New: func(x *vfExec) vfInstance {
+					return vfTCNew(x, timecache.Strategy(c.Scenario.Strategy), c.Scenario.Phase)
+				}}, raw)
 			default:
 				vfReplayGWScenario(r, raw, vfC02Mk)
 			}
